@@ -78,6 +78,14 @@ async fn main() {
             } else if op == "k" {
                 shell = new_shell(true, &[("HISTFILE", &pstr)]).await;
                 ts_on = false;
+            } else if op == "X" || op == "K" {
+                // as x / k, but the next session is CONSTRUCTED with HISTTIMEFORMAT set (process environment of a
+                // real shell): loading the file must not depend on it
+                if op == "X" {
+                    shell.save_history().unwrap();
+                }
+                shell = new_shell(true, &[("HISTFILE", &pstr), ("HISTTIMEFORMAT", "%s ")]).await;
+                ts_on = true;
             } else if op == "c" {
                 let _ = run(&mut shell, "history -c").await;
             } else if op == "t" {
